@@ -320,7 +320,7 @@ class Runner:
         status = 'trace-only'
         if q.replay and vals:
             try:
-                exe = self.native_build(q, True, os.path.join(self.work, 'replay_' + self.safe(q.name)))
+                exe = self.native_build(q, q.replay != 'generated', os.path.join(self.work, 'replay_' + self.safe(q.name)))      # replay='generated': native run of the translated C (flat-memory hooks exist only there)
                 env = dict(os.environ, VP_INPUTS=os.path.join(d, 'inputs%s.txt' % sfx), ASAN_OPTIONS='detect_leaks=0:exitcode=79',
                            UBSAN_OPTIONS='halt_on_error=1:exitcode=79:print_stacktrace=1')
                 r = subprocess.run([exe], env=env, stdout=subprocess.PIPE, stderr=subprocess.STDOUT, text=True, timeout=120)
